@@ -135,6 +135,31 @@ pub fn plan(tier: Tier) -> Plan {
             }
         }));
     }
+    // every assignment from {0,1,2} (final outputs, shared suffixes with
+    // different outputs) to every subset of U_abc2 with <= 4 keys (thorough 5)
+    {
+        let u = u_abc2();
+        let mut masks = vec![];
+        for_each_mask_upto(u.keys.len(), if thorough { 5 } else { 4 }, &mut |m| masks.push(m));
+        let chunk = (masks.len() + 63) / 64;
+        for part in masks.chunks(chunk.max(1)) {
+            let part = part.to_vec();
+            let u = u.clone();
+            p.units.push(unit("U_abc2-all-value-assignments-{0,1,2}", format!("abc2 assignments {} masks from {}", part.len(), part[0]), move |st, rep| {
+                for &mask in &part {
+                    if rep.stopped() { return; }
+                    let keys = select(&u.keys, mask);
+                    let n = keys.len();
+                    for code in 0..3usize.pow(n as u32) {
+                        let mut c = code;
+                        let kvs: Vec<Kv> = keys.iter().map(|k| { let v = (c % 3) as u64; c /= 3; (k.clone(), v) }).collect();
+                        st.nontrivial += (n >= 2) as u64;
+                        do_case(&kvs, (1, 1), false, &[], st, rep);
+                    }
+                }
+            }));
+        }
+    }
     for part in 0..8usize {
         p.units.push(unit("label-family-all-256-bytes", format!("labels part {}", part), move |st, rep| {
             for (i, (_, kvs)) in label_family().into_iter().enumerate() {
